@@ -104,14 +104,18 @@ def _desc(draw, cli_one_in):
     fault = None
     if fk == 'file':
         # boundary positions on purpose: first / last argument
-        fault = dict(kind='file', argpos=draw(st.sampled_from([0, len(args), len(args), draw(st.integers(0, len(args)))])))
+        where = draw(st.sampled_from(['last', 'first', 'any', 'last']))
+        fault = dict(kind='file', argpos={'first': 0, 'last': len(args)}.get(where, draw(st.integers(0, len(args)))))
     elif fk == 'field-absent':
-        fault = dict(kind='field-absent', reqpos=draw(st.sampled_from([0, len(request), len(request), draw(st.integers(0, len(request)))])))
+        where = draw(st.sampled_from(['last', 'first', 'any', 'last']))
+        fault = dict(kind='field-absent', reqpos={'first': 0, 'last': len(request)}.get(where, draw(st.integers(0, len(request)))))
     elif fk == 'field-dropped':
+        wa = draw(st.sampled_from(['last', 'first', 'any', 'last']))
+        wr = draw(st.sampled_from(['last', 'first', 'any', 'last']))
         fault = dict(
             kind='field-dropped',
-            argpos=draw(st.sampled_from([0, len(args) - 1, len(args) - 1, draw(st.integers(0, len(args) - 1))])),
-            reqpos=draw(st.sampled_from([0, len(request) - 1, len(request) - 1, draw(st.integers(0, len(request) - 1))])),
+            argpos={'first': 0, 'last': len(args) - 1}.get(wa, draw(st.integers(0, len(args) - 1))),
+            reqpos={'first': 0, 'last': len(request) - 1}.get(wr, draw(st.integers(0, len(request) - 1))),
         )
     route = draw(st.sampled_from(['inproc'] * (cli_one_in - 1) + ['cli']))
     d = dict(
@@ -155,8 +159,8 @@ def classes(d):
     c.append('fault=' + (d['fault']['kind'] if d['fault'] else 'none'))
     if d['route'] == 'inproc':
         c.append('sink=' + d['sink'])
-    for a in sorted(set(d['args'])):
-        c.append('comp=' + d['files'][a]['comp'])
+    for cp in sorted(set(d['files'][a]['comp'] for a in d['args'])):
+        c.append('comp=' + cp)
     if any(len(d['fields'][i]['tail']) > 0 for i in req):
         c.append('multi-dim column')
     if any(d['files'][a]['n'][i] == 0 for a in d['args'] for i in req):
